@@ -181,43 +181,103 @@ def summarize(p):
     return acts
 
 
+def rounds(ctx):
+    """one round of the connection task, evaluated on the public Client::handle with its private steps inlined (so the
+    rules do not depend on how the loop is divided into functions or on what those functions return): for every path
+    the kind of frame that was read, what was done with it, and whether the task ends or goes back to reading"""
+    if "c12.rounds" in ctx._cache:
+        return ctx._cache["c12.rounds"]
+    f = ctx.facts
+    b, paths, I = client_paths(ctx, HL)
+    qq = [i for i, v in enumerate(f.adts[BREQ]["variants"]) if v["name"] == "QuitQuietly"]
+    quit_idx = [i for i, v in enumerate(f.adts[BRESP]["variants"]) if v["name"] == "Quit"]
+    out = []
+    for p in paths:
+        acts = summarize(p)
+        kinds = [a for a, _ in acts]
+        r = {"path": p, "acts": acts, "kinds": kinds, "frame": None, "req": None, "quitq": False, "ends": not p.cut, "cut": p.cut}
+        reads = [e for a, e in acts if a == "read"]
+        if not reads:
+            out.append(r)
+            continue
+        T = reads[0].result if reads[0].result is not None else tform(("await", tform(reads[0].args[0])))
+        dT = p.state.discr.get(T)
+        R = ("field", ("as", T, "Ok"), "0")
+        O = ("field", ("as", R, "Ok"), "0")
+        req = ("field", ("as", O, "Some"), "0")
+        if dT == 1:
+            r["frame"] = "timeout"
+        elif dT == 0:
+            dR = p.state.discr.get(R)
+            if dR == 1:
+                r["frame"] = "read-error"
+            elif dR == 0:
+                dO = p.state.discr.get(O)
+                if dO == 0:
+                    r["frame"] = "eof"
+                elif dO == 1:
+                    r["frame"] = "request"
+                    r["req"] = req
+                    dq = p.state.discr.get(req)
+                    r["quitq"] = bool(qq) and dq == qq[0]
+        disp = [e for a, e in acts if a == "dispatch"]
+        r["disp"] = disp
+        r["resp"] = None
+        r["resp_quit"] = None
+        if len(disp) == 1:
+            d = p.state.discr.get(disp[0].result)
+            r["resp"] = "some" if d == 1 else "none" if d == 0 else None
+            if d == 1:
+                rv = ("field", ("as", disp[0].result, "Some"), "0")
+                r["resp_term"] = rv
+                dv = p.state.discr.get(rv)
+                r["resp_quit"] = bool(quit_idx) and dv == quit_idx[0]
+        w = [e for a, e in acts if a == "write"]
+        r["write"] = None
+        if w:
+            dw = p.state.discr.get(w[0].result)
+            r["write"] = "err" if dw == 1 else "ok"
+        out.append(r)
+    ctx._cache["c12.rounds"] = (b, out)
+    return ctx._cache["c12.rounds"]
+
+
 def r3(ctx):
     rep = Report("C12.R3", "exactly-once dispatch, at most one write (exactly one when there is a response), sequential task", floor=6)
     f = ctx.facts
-    b, paths, I = client_paths(ctx, HR)
+    b, rs = rounds(ctx)
     rep.analysed(b)
-    rep.evaluations += len(paths)
+    rep.evaluations += len(rs)
     n_resp = n_noresp = n_qq = 0
-    for p in paths:
-        if p.cut:
-            rep.bad("handle_request:cut", "cannot evaluate Client::handle_request (%s)" % p.cut, b.loc())
+    for r in rs:
+        if r["frame"] != "request":
             continue
-        acts = summarize(p)
-        kinds = [a for a, _ in acts]
+        p = r["path"]
+        if r["cut"] and not str(r["cut"]).startswith("loop"):
+            rep.bad("handle_request:cut", "cannot evaluate the connection task (%s)" % r["cut"], b.loc())
+            continue
+        kinds = r["kinds"]
         nd = kinds.count("dispatch")
         nw = kinds.count("write")
-        quitq = p.state.discr.get(P("request"))
-        is_qq = isinstance(quitq, int) and f.adts[BREQ]["variants"][quitq]["name"] == "QuitQuietly" if quitq is not None and not isinstance(quitq, tuple) else False
-        if is_qq:
+        if r["quitq"]:
             n_qq += 1
             continue  # R4
         if nd != 1:
             rep.bad("handle_request:dispatch-count", "a request is dispatched to the handler %d times on some path (must be exactly once)" % nd, b.loc())
             continue
-        disp = [e for a, e in acts if a == "dispatch"][0]
-        rep.check(tform(disp.args[1]) == P("request"), "handle_request:dispatches-the-request", "handler gets the decoded request", "the handler is given %s instead of the decoded request" % short(disp.args[1], 60), b.loc())
-        has_resp = p.state.discr.get(disp.result)
-        if has_resp == 1:
+        disp = r["disp"][0]
+        rep.check(tform(disp.args[1]) == r["req"], "handle_request:dispatches-the-request", "handler gets the decoded request", "the handler is given %s instead of the decoded request" % short(disp.args[1], 60), b.loc())
+        if r["resp"] == "some":
             n_resp += 1
-            w = [e for a, e in acts if a == "write-call"]
-            okw = nw == 1 and len(w) == 1 and ("field", ("as", disp.result, "Some"), "0") in atoms(w[0].args[1]) and kinds.index("dispatch") < kinds.index("write")
+            w = [e for a, e in r["acts"] if a == "write-call"]
+            okw = nw == 1 and len(w) == 1 and r["resp_term"] in atoms(w[0].args[1]) and kinds.index("dispatch") < kinds.index("write")
             rep.check(okw, "handle_request:response-written-once", "the handler's response is written exactly once, after the dispatch", "a response is written %d times / not the handler's response" % nw, b.loc())
-        elif has_resp == 0:
+        elif r["resp"] == "none":
             n_noresp += 1
-            rep.check(nw == 0 and "shutdown" not in kinds and tform(p.ret) == 0, "handle_request:no-response-no-write", "no response: nothing written, connection stays open", "without a response the connection task writes %d times / closes (ret %s)" % (nw, short(p.ret, 20)), b.loc())
+            rep.check(nw == 0 and "shutdown" not in kinds and not r["ends"], "handle_request:no-response-no-write", "no response: nothing written, connection stays open", "without a response the connection task writes %d times / closes (%s)" % (nw, "the task ends" if r["ends"] else "continues"), b.loc())
         else:
             rep.bad("handle_request:shape", "cannot relate the handler's result to the write", b.loc())
-    rep.check(n_resp > 0 and n_noresp > 0 and n_qq > 0, "handle_request:cases", "paths for: response, no response, quitq", "Client::handle_request lacks a path for one of {response, no response, quitq} (%d/%d/%d)" % (n_resp, n_noresp, n_qq), b.loc())
+    rep.check(n_resp > 0 and n_noresp > 0 and n_qq > 0, "handle_request:cases", "paths for: response, no response, quitq", "the connection task lacks a path for one of {response, no response, quitq} (%d/%d/%d)" % (n_resp, n_noresp, n_qq), b.loc())
     # sequential: no spawn/join/select reachable from the connection task
     cg = callgraph.get(ctx)
     conc = ("tokio::spawn", "tokio::task::spawn", "tokio::task::spawn::spawn", "tokio::task::spawn_local", "tokio::task::spawn_blocking", "futures::future::join", "futures_util::future::join", "tokio::task::JoinSet", "std::thread::spawn", "futures_util::stream::futures_unordered")
@@ -225,20 +285,14 @@ def r3(ctx):
     def is_conc(name, t=None):
         return any(name.startswith(c) for c in conc) or "::join_all" in name or "FuturesUnordered" in name or name.endswith("::spawn")
 
-    for root in (HL, HF_, HR, CONN + "::read_frame::{closure#0}", CONN + "::write::{closure#0}"):
-        w = cg.may_reach_ext(root, is_conc)
-        rep.check(w is None, "sequential:%s" % root.split("::")[-2], "no concurrent work started from %s" % root.split("::")[-2], "the connection task can start concurrent work (%s): requests of one connection may be executed or answered out of order" % (" -> ".join(w) if w else ""), f.one(root).loc())
-    # handle(): one frame is handled to completion before the next read
-    b, paths, I = client_paths(ctx, HL)
-    rep.analysed(b)
-    for p in paths:
-        acts = [a for a, _ in summarize(p)]
-        # the handle_frame future is awaited inside: events of nested coroutines are inlined; a second read_frame call
-        # before the first frame's handling finished would show up as read_frame-call twice without a dispatch in between
+    w = cg.may_reach_ext(HL, is_conc)
+    rep.check(w is None, "sequential:handle", "no concurrent work started from the connection task", "the connection task can start concurrent work (%s): requests of one connection may be executed or answered out of order" % (" -> ".join(w) if w else ""), safe_loc(f, HL))
+    # one frame is handled to completion before the next read
+    for r in rs:
+        acts = r["kinds"]
         idx = [i for i, a in enumerate(acts) if a == "read_frame-call"]
         for i, j in zip(idx, idx[1:]):
             seg = acts[i:j]
-            # between two reads there must be the handling of the first (dispatch or shutdown) -- or nothing was read (timeout/None/Err end the loop)
             if "dispatch" not in seg and "shutdown" not in seg:
                 rep.bad("handle:read-before-handled", "a second frame is read before the first was handled", b.loc())
     rep.ok("handle:read-handle-loop", "each frame is handled before the next read_frame", b.loc())
@@ -248,59 +302,40 @@ def r3(ctx):
 def r4(ctx):
     rep = Report("C12.R4", "quit rules: quitq -> shutdown and stop, nothing executed/written; quit response -> written, then shutdown, stop; stop ends the read loop", floor=5)
     f = ctx.facts
-    adt = f.adts[BREQ]
-    qi = [i for i, v in enumerate(adt["variants"]) if v["name"] == "QuitQuietly"]
-    if not qi:
-        rep.bad("quitq:variant", "no QuitQuietly request variant")
-        return rep
-    req = Struct(BREQ, "QuitQuietly", qi[0], OrderedDict([("0", P("payload"))]))
-    b, paths, I = client_paths(ctx, HR, request=req)
+    b, rs = rounds(ctx)
     rep.analysed(b)
-    ok = bool(paths)
-    for p in paths:
-        kinds = [a for a, _ in summarize(p)]
-        if "dispatch" in kinds or "write" in kinds or "write-call" in kinds or "shutdown" not in kinds or tform(p.ret) != 1 or p.cut:
+    qq = [r for r in rs if r["frame"] == "request" and r["quitq"]]
+    ok = bool(qq)
+    for r in qq:
+        kinds = r["kinds"]
+        if "dispatch" in kinds or "write" in kinds or "write-call" in kinds or "shutdown" not in kinds or not r["ends"]:
             ok = False
-    rep.check(ok, "quitq", "quitq: shutdown, return true, no dispatch, no write", "quitq is not handled as 'close without executing or answering anything'", b.loc())
-    # quit: response variant Quit -> write, shutdown, true
-    b, paths, I = client_paths(ctx, HR)
+    rep.check(ok, "quitq", "quitq: shutdown, task ends, no dispatch, no write", "quitq is not handled as 'close without executing or answering anything'", b.loc())
     n_quit = n_other = 0
-    for p in paths:
-        acts = summarize(p)
-        kinds = [a for a, _ in acts]
-        disp = [e for a, e in acts if a == "dispatch"]
-        if not disp or p.state.discr.get(disp[0].result) != 1:
+    for r in rs:
+        if r["frame"] != "request" or r["quitq"] or r.get("resp") != "some":
             continue
-        resp = ("field", ("as", disp[0].result, "Some"), "0")
-        d = p.state.discr.get(resp)
-        quit_idx = [i for i, v in enumerate(f.adts[BRESP]["variants"]) if v["name"] == "Quit"][0]
-        is_quit = d == quit_idx
-        wrote_ok = "write" in kinds and p.state.discr.get([e for a, e in acts if a == "write"][0].result) in (0, None)
-        werr = "write" in kinds and p.state.discr.get([e for a, e in acts if a == "write"][0].result) == 1
-        if werr:
-            rep.check(tform(p.ret) == 1, "write-error-closes", "a failed write ends the connection", "after a failed write the connection keeps going (ret %s)" % short(p.ret, 20), b.loc())
+        kinds = r["kinds"]
+        if r["write"] == "err":
+            rep.check(r["ends"], "write-error-closes", "a failed write ends the connection", "after a failed write the connection keeps going", b.loc())
             continue
-        if is_quit:
+        if r["resp_quit"]:
             n_quit += 1
-            ok = "write" in kinds and "shutdown" in kinds and kinds.index("write") < kinds.index("shutdown") and tform(p.ret) == 1
-            rep.check(ok, "quit", "quit: response written, then shutdown, stop", "a quit response is not 'written, then the socket shut down, then stop' (actions %s, ret %s)" % (kinds, short(p.ret, 20)), b.loc())
+            ok = "write" in kinds and "shutdown" in kinds and kinds.index("write") < kinds.index("shutdown") and r["ends"]
+            rep.check(ok, "quit", "quit: response written, then shutdown, stop", "a quit response is not 'written, then the socket shut down, then stop' (actions %s, %s)" % (kinds, "ends" if r["ends"] else "continues"), b.loc())
         else:
             n_other += 1
-            ok = "shutdown" not in kinds and tform(p.ret) == 0
-            rep.check(ok, "non-quit-keeps-open", "other responses keep the connection open", "a non-quit response closes the connection or stops the loop (actions %s, ret %s)" % (kinds, short(p.ret, 20)), b.loc())
+            ok = "shutdown" not in kinds and not r["ends"]
+            rep.check(ok, "non-quit-keeps-open", "other responses keep the connection open", "a non-quit response closes the connection or stops the loop (actions %s, %s)" % (kinds, "ends" if r["ends"] else "continues"), b.loc())
     rep.check(n_quit > 0 and n_other > 0, "quit:cases", "paths for quit and non-quit responses", "cannot find both a quit and a non-quit response path (%d/%d)" % (n_quit, n_other), b.loc())
-    # handle(): true from handle_frame -> loop exit, no further read
-    b, paths, I = client_paths(ctx, HL)
+    # after a shutdown nothing more is read
     okl = True
     seen_stop = False
-    for p in paths:
-        acts = summarize(p)
-        kinds = [a for a, _ in acts]
-        # a path that saw a shutdown (quit / quitq) or an Err/None frame must not call read_frame again
+    for r in rs:
+        kinds = r["kinds"]
         if "shutdown" in kinds:
             seen_stop = True
-            after = kinds[kinds.index("shutdown"):]
-            if "read_frame-call" in after:
+            if not r["ends"] or "read_frame-call" in kinds[kinds.index("shutdown"):]:
                 okl = False
     rep.check(okl and seen_stop, "handle:stop-ends-loop", "after quit/quitq nothing more is read", "after a quit the read loop continues: requests received after quit are executed", b.loc())
     return rep
@@ -320,8 +355,9 @@ def r5(ctx):
     n_ok = 0
     for p in paths:
         var, _pl = variant_of(p.ret)
-        if var != "Ok":
+        if var == "Err" or p.cut:
             continue
+        # Ok(..) written out, or the result of the awaited write handed back as it is (Ok exactly when the write succeeded)
         n_ok += 1
         enc = [e for e in p.events if e.kind == "call" and e.name == CODEC + "::encode_message"]
         wa = [e for e in p.events if e.kind == "await" and "write_all" in repr(tform(e.args[0]))]
